@@ -48,12 +48,13 @@ class Real:
 
 
 class Ins:
-    __slots__ = ('toks', 'label', 'close_ws')
+    __slots__ = ('toks', 'label', 'close_ws', 'inline')
 
     def __init__(self, label):
         self.toks = []
         self.label = label
         self.close_ws = ''
+        self.inline = False     # written as /*@[*/ ... /*@]*/ (annotation inside an expression)
 
 
 class Sub:
@@ -122,6 +123,7 @@ def parse_mirror(text, mirror_file):
                 if sub_stack and not sub_stack[-1][0].live:
                     err('ins inside dead sub', t)
                 cur_ins = Ins(body[1:].strip())
+                cur_ins.inline = t.text.startswith('/*')
                 cur_ins.toks.append(rtok.Tok('ws', '', t.ws, t.line))
                 continue
             if body == ']':
@@ -469,7 +471,12 @@ def generate_section(section, repo_root, em, res):
                 emit_real(n, track)
             elif isinstance(n, Ins):
                 nxt = first_real(nodes[k + 1:], None)
-                if nxt is not None:
+                # tokens that /repo inserted at this position go BEFORE a line-form region (a proof block or an invariant
+                # stays next to the statement it talks about) but AFTER an inline annotation (`|x| -> (o: T) ensures .. {` + new body tokens)
+                # (an inline annotation that starts with a closer, e.g. the `}` that ends an inserted closure block, stays behind them)
+                first_tok = next((t_ for t_ in n.toks if t_.kind not in ('ws', 'mark')), None)
+                closes = first_tok is not None and first_tok.kind == 'p' and first_tok.text in ')]}'
+                if nxt is not None and (not n.inline or closes):
                     emit_pre_a(nxt)
                 if id(n) in dropped_hints:
                     continue
